@@ -55,8 +55,10 @@ def theorem(tier, rng, seed):
 def make_observable(op, absolute=False):
     # documented arguments by position as often as by keyword
     if op["k"] in ("X", "Y", "Z"):
-        return common.api_call({"X": SigmaX, "Y": SigmaY, "Z": SigmaZ}[op["k"]], ["absolute"], dict(absolute=absolute))
-    return common.api_call(NeighbourInteraction, ["periodic_bcs", "c"], dict(periodic_bcs=op["per"], c=op["c"]))
+        return common.api_call({"X": SigmaX, "Y": SigmaY, "Z": SigmaZ}[op["k"]], ["absolute"], dict(absolute=absolute),
+                               defaults=dict(absolute=False))
+    return common.api_call(NeighbourInteraction, ["periodic_bcs", "c"], dict(periodic_bcs=op["per"], c=op["c"]),
+                           defaults=dict(periodic_bcs=False, c=1))
 
 
 def op_name(op):
